@@ -55,7 +55,7 @@ $(B)/mc_rt.o: engine/mcsched/mc_rt.cpp $(ENGHDRS)
 	$(CXX) -std=c++17 -O1 -g1 $(WARN) $(INC) -c -o $@ $<
 $(B)/mc_pool: harness/mc_pool.cpp $(B)/mc_rt.o $(LIBHDRS) $(ENGHDRS)
 	@mkdir -p $(B)
-	$(CXX) $(BASEFLAGS) -O1 -g1 -pthread -o $@ harness/mc_pool.cpp $(B)/mc_rt.o
+	$(CXX) $(BASEFLAGS) -O1 -g1 -D_GLIBCXX_ASSERTIONS -pthread -o $@ harness/mc_pool.cpp $(B)/mc_rt.o
 $(B)/mc_preinclude.hpp: $(LIBHDRS)
 	@mkdir -p $(B)
 	grep -rhoE '#include [<"][^>"]+[>"]' $(REPO)/include | sort -u | grep -v fastscapelib | grep -v '"\./' | grep -v '"utils.hpp"' | grep -v Eigen > $@
@@ -67,6 +67,11 @@ $(B)/mc_rt_nopie.o: engine/mcsched/mc_rt.cpp $(ENGHDRS)
 	$(CXX) -std=c++17 -O1 -g1 $(WARN) $(INC) -fno-pie -c -o $@ $<
 $(B)/mc_flow.o: harness/mc_flow.cpp $(B)/mc_preinclude.hpp $(LIBHDRS) $(ENGHDRS)
 	@mkdir -p $(B)
-	$(CXX) $(BASEFLAGS) -I$(B) -O1 -g1 -fno-pie -fsanitize=thread -c -o $@ harness/mc_flow.cpp
+	$(CXX) $(BASEFLAGS) -I$(B) -O1 -g1 -fno-pie -D_GLIBCXX_ASSERTIONS -fsanitize=thread -c -o $@ harness/mc_flow.cpp
 $(B)/mc_flow: $(B)/mc_flow.o $(B)/mc_tsan.o $(B)/mc_rt_nopie.o
+	$(CXX) -no-pie -pthread -o $@ $^
+$(B)/mc_poolseq.o: harness/mc_poolseq.cpp $(LIBHDRS) $(ENGHDRS)
+	@mkdir -p $(B)
+	$(CXX) $(BASEFLAGS) -O1 -g1 -fno-pie -D_GLIBCXX_ASSERTIONS -fsanitize=thread -c -o $@ harness/mc_poolseq.cpp
+$(B)/mc_poolseq: $(B)/mc_poolseq.o $(B)/mc_tsan.o $(B)/mc_rt_nopie.o
 	$(CXX) -no-pie -pthread -o $@ $^
